@@ -3,7 +3,8 @@
    the populated base images, read from IOEnv.PROFILES).  Between requests the e2fsck run tune2fs asked for is carried out
    (a requested -fD is data dependent: both outcomes are explored).
      InvFeatureSet   no reachable state is one libext2fs refuses to open or e2fsck reports as an invalid combination
-     InvRewriteAll   a request that changes what checksums are computed from leaves no checksummed object class stale  *)
+     InvRewriteAll   a request that changes what checksums are computed from leaves no checksummed object class stale
+   ASSUME UniverseOK: every starting image holds every element of Tune's boundary catalogue (else the check is broken)  *)
 EXTENDS Tune, Json, IOUtils
 CONSTANT MaxLen
 VARIABLES st, n, stale, hist
@@ -15,6 +16,8 @@ St(r) == [feats |-> AsSet(r.feats), label |-> r.label, uuid |-> r.uuid, blocks |
           stride |-> r.stride, stripe |-> r.stripe, hashalg |-> r.hashalg, testfs |-> r.testfs, valid |-> r.valid, errfs |-> r.errfs,
           lastmnt |-> r.lastmnt, mmp |-> r.mmp, mmpint |-> r.mmpint, orphino |-> r.orphino, csumtype |-> r.csumtype,
           lastcheck |-> r.lastcheck, mtime |-> r.mtime, jdev |-> r.jdev, packed |-> r.packed]
+(* the starting images contain every element of the boundary catalogue (census by the independent reader) *)
+ASSUME \A i \in 1..Len(Profiles) : UniverseOK(St(Profiles[i].state), Profiles[i].content)
 MCOps == StructuralOps \cup {K("E", "force_fsck", 0), K("L", "newlabel", 0), K("T", "20200101000000", 1577836800), K("m", "", 1)}
 
 Fsck(s, op) == {[s EXCEPT !.valid = 1, !.errfs = 0, !.mntcount = 0, !.lastcheck = FakeNow, !.feats = @ \cup x] : x \in SUBSET FsckMayRestore(op)}
